@@ -72,7 +72,7 @@ func appendSlice(s []value, add []value) []value {
 	if n <= cap(s) {
 		out := s[:n]
 		for i, v := range add {
-			setCell(&out[len(s)+i], v)
+			setCell(&out[len(s)+i], copyVal(v))
 		}
 		return out
 	}
@@ -85,8 +85,12 @@ func appendSlice(s []value, add []value) []value {
 		newCap = 8
 	}
 	out := make([]value, n, newCap)
-	copy(out, s)
-	copy(out[len(s):], add)
+	for i, v := range s {
+		out[i] = copyVal(v)
+	}
+	for i, v := range add {
+		out[len(s)+i] = copyVal(v)
+	}
 	// spare capacity must hold zero values of the element type; callers reslice only after
 	// storing, and zero cells are filled lazily by fillSpare when the element type is known.
 	return out
@@ -164,4 +168,25 @@ func (c *chanv) close() {
 	}
 	journalFn(func() { c.closed = false })
 	c.closed = true
+}
+
+// copyVal returns a copy of v that shares no mutable aggregate storage with it: cells hold
+// structs and arrays by reference to a Go slice that store() updates in place, so a value
+// placed into a second cell must get its own storage.
+func copyVal(v value) value {
+	switch v := v.(type) {
+	case structure:
+		out := make(structure, len(v))
+		for i, e := range v {
+			out[i] = copyVal(e)
+		}
+		return out
+	case array:
+		out := make(array, len(v))
+		for i, e := range v {
+			out[i] = copyVal(e)
+		}
+		return out
+	}
+	return v
 }
